@@ -96,16 +96,24 @@ SendDone(res) ==
   /\ obs' = Append(obs, [Ev("send") EXCEPT !.env = sk, !.res = res])
   /\ sOff' = 0
 
+(* once a Send has failed at the connection the transport's encoder keeps that error: every later Send *)
+(* reports it again and nothing more is handed to the connection                                       *)
+Poisoned == \E i \in 1 .. Len(obs) : obs[i].k = "send" /\ obs[i].res = "err"
+WPoisoned ==
+  /\ phase = "send" /\ sk <= NE /\ Poisoned
+  /\ SendDone("err") /\ sk' = sk + 1
+  /\ UNCHANGED <<cfg, phase, wire, wf, cut, rd, seen, N, used, rf, eofSeen, nextk, small, plan>>
+
 (* ctxConn.Write: one conn.Write call per action *)
 WFull ==
-  /\ phase = "send" /\ sk <= NE
+  /\ phase = "send" /\ sk <= NE /\ ~Poisoned
   /\ wire' = Push(wire, <<sk, sOff, BLen(sk)>>)
   /\ plan' = WPlan("full", BLen(sk) - sOff)
   /\ SendDone("ok") /\ sk' = sk + 1
   /\ UNCHANGED <<cfg, phase, wf, cut, rd, seen, N, used, rf, eofSeen, nextk, small>>
 
 WShort(n) ==       \* n bytes accepted, then a temporary timeout: the loop retries
-  /\ phase = "send" /\ sk <= NE /\ wf < MaxWF
+  /\ phase = "send" /\ sk <= NE /\ wf < MaxWF /\ ~Poisoned
   /\ n < BLen(sk) - sOff
   /\ wire' = Push(wire, <<sk, sOff, sOff + n>>)
   /\ plan' = WPlan("short", n)
@@ -113,12 +121,12 @@ WShort(n) ==       \* n bytes accepted, then a temporary timeout: the loop retri
   /\ wf' = wf + 1
   /\ UNCHANGED <<cfg, phase, sk, cut, rd, seen, N, used, rf, eofSeen, nextk, small, obs>>
 
-WHard(n) ==        \* n bytes accepted, then a hard error: Send reports it
-  /\ phase = "send" /\ sk <= NE /\ wf < MaxWF
+WHard(n) ==        \* n bytes accepted, then a hard error: Send reports it (the application goes on with the next one)
+  /\ phase = "send" /\ sk <= NE /\ wf < MaxWF /\ ~Poisoned
   /\ n < BLen(sk) - sOff
   /\ wire' = Push(wire, <<sk, sOff, sOff + n>>)
   /\ plan' = WPlan("hard", n)
-  /\ SendDone("err") /\ sk' = NE + 1 /\ wf' = wf + 1
+  /\ SendDone("err") /\ sk' = sk + 1 /\ wf' = wf + 1
   /\ UNCHANGED <<cfg, phase, cut, rd, seen, N, used, rf, eofSeen, nextk, small>>
 
 (* the sender is done: fix where the stream ends for the receiver *)
@@ -222,7 +230,7 @@ Init == /\ cfg \in Cfgs
         /\ obs = <<>>
 
 ShortSizes == IF sk <= NE THEN {n \in 0 .. BLen(sk) : n % U = 0 \/ n = VLen(sk)} ELSE {}
-Next == \/ WFull
+Next == \/ WFull \/ WPoisoned
         \/ \E n \in ShortSizes : WShort(n) \/ WHard(n)
         \/ (phase = "send" /\ sk > NE /\ \E c \in Marks \cup {Total(wire)} : StartRecv(c))
         \/ RReturn
